@@ -83,12 +83,15 @@ impl Ctl {
         g.held_d = None;
         self.cv.notify_all();
     }
+    /// quiet log and the daemon thread asleep (hold point, socket read, blocked write) or gone: a slow machine must not turn a
+    /// thread that is still on its way into one that "did not come"
     fn settle(&self, quiet: Duration) {
+        let t0 = Instant::now();
         let mut n = self.log.m.lock().unwrap().len();
         loop {
             std::thread::sleep(quiet);
             let m = self.log.m.lock().unwrap().len();
-            if m == n {
+            if m == n && (blocked_now(&tids_named("vh-daemon")) || t0.elapsed() > Duration::from_secs(3)) {
                 return;
             }
             n = m;
@@ -107,7 +110,10 @@ impl Ctl {
                 }
                 return true;
             }
-            if t0.elapsed() > grace {
+            if t0.elapsed() > grace && (blocked_now(&tids_named("vh-daemon")) || t0.elapsed() > Duration::from_secs(3)) {
+                if g.held_d.is_some() {
+                    continue;
+                }
                 return false;
             }
             g = self.cv.wait_timeout(g, Duration::from_millis(1)).unwrap().0;
@@ -168,7 +174,7 @@ fn run_serve(case: &Value, trace: &mut Trace) {
         }
         drop(p);
     }
-    let res = rx.recv_timeout(Duration::from_secs(10)).unwrap_or_else(|_| "hang".to_string());
+    let res = recv_or_blocked(&rx, Duration::from_secs(10), Duration::from_secs(120), &|| tids_named("vh-daemon"), &[]).unwrap_or_else(|| "hang".to_string());
     // every worker's exit event must have been raised: the worker threads terminate although the daemon object is alive
     let t1 = Instant::now();
     let mut left = live_workers();
@@ -452,11 +458,18 @@ pub fn run_case(case: &Value, trace: &mut Trace) {
         let mut buf = [0u8; 4096];
         let mut got = 0usize;
         let cap = if flood { 256usize << 20 } else { 4096 };
+        let t_eof = Instant::now();
         peer_eof = loop {
             match raw_recv(p, &mut buf, 0) {
                 Ok((0, _)) => break "eof".to_string(),
                 Ok((n, _)) => got += n,
-                Err(e) if e.kind() == std::io::ErrorKind::WouldBlock || e.kind() == std::io::ErrorKind::TimedOut => break "no_eof".to_string(),
+                Err(e) if e.kind() == std::io::ErrorKind::WouldBlock || e.kind() == std::io::ErrorKind::TimedOut => {
+                    // five seconds without end-of-stream: final only if the daemon thread is asleep or gone (nobody is on the
+                    // way to closing the connection), or after two minutes
+                    if all_blocked(&tids_named("vh-daemon"), &[]) || t_eof.elapsed() > Duration::from_secs(120) {
+                        break "no_eof".to_string();
+                    }
+                }
                 Err(_) => break "eof".to_string(),
             }
             if got > cap {
@@ -490,7 +503,7 @@ pub fn run_case(case: &Value, trace: &mut Trace) {
                 let _ = tx2.send(if r.is_ok() { "Ok".to_string() } else { "Err".to_string() });
                 daemon
             });
-            second_wait = rx2.recv_timeout(Duration::from_secs(10)).unwrap_or_else(|_| "hang".to_string());
+            second_wait = wait_result(&rx2);
             if second_wait != "hang" {
                 if let Ok(d) = w2.join() {
                     guarded_drop(d);
@@ -507,7 +520,12 @@ pub fn run_case(case: &Value, trace: &mut Trace) {
     // thread count back to the baseline after drop?
     let t0 = Instant::now();
     let mut after = thread_count();
-    while after > threads_before && t0.elapsed() < Duration::from_secs(10) {
+    let leftover = || {
+        let mut v = tids_named("vring_worker");
+        v.extend(tids_named("vh-daemon"));
+        v
+    };
+    while after > threads_before && (t0.elapsed() < Duration::from_secs(10) || (t0.elapsed() < Duration::from_secs(120) && !all_blocked(&leftover(), &[]))) {
         std::thread::sleep(Duration::from_millis(2));
         after = thread_count();
     }
